@@ -55,7 +55,7 @@ def oracle_gain(case):
             om = 2 * np.pi * float(res.f[j]) / fs
             w = wref(L, cfg["psll"])
             Sx = tol.seg_scale(x, D, L, w, cfg["order"])
-            bx = tol.budget2(L, om, Sx)
+            bx = tol.budget2(L, om, Sx, len(D))
             XX = float(res.XX[j])
             if XX > 1e3 * bx:
                 powered += be == case["backends"][0]
@@ -88,7 +88,7 @@ def _agree(raw, case, x, y, wref, viol):
         w = wref(L, cfg["psll"])
         Sx = tol.seg_scale(x, D, L, w, cfg["order"])
         Sy = tol.seg_scale(y, D, L, w, cfg["order"])
-        bxy = tol.budget2(L, om, (Sx ** 0.5 * Sy ** 0.5))
+        bxy = tol.budget2(L, om, (Sx ** 0.5 * Sy ** 0.5), len(D))
         if not abs(complex(a.XY[j]) - complex(b.XY[j])) <= 4 * bxy:
             viol.append(V("backends_disagree", a=bes[0], b=bes[1], XYa=complex(a.XY[j]), XYb=complex(b.XY[j]), bin=int(j),
                           budget=4 * bxy))
@@ -102,7 +102,11 @@ def delay_case(draw, tier, backends, Nmax):
     cfg = draw(gens.analysis_config(N, schedulers=("ltf", "vectorized_ltf", "new_ltf", "lpsd"), backends=(backends[0],),
                                     Jmax=14 if backends[0] == "cuda" else 60, Kmax=20))
     cfg["Lmin"] = draw(st.integers(64 * d, max(64 * d, N // 3)))
-    return {"N": N, "cfg": cfg, "fs": draw(st.sampled_from([1.0, 10.0, 0.37])), "d": d,
+    band = None
+    if draw(st.integers(0, 2)) == 2:
+        u = sorted([draw(st.floats(0.05, 0.6)), draw(st.floats(0.3, 1.0))])
+        band = u
+    return {"N": N, "cfg": cfg, "fs": draw(st.sampled_from([1.0, 10.0, 0.37])), "d": d, "band_u": band,
             "rec": draw(gens.record(N, kinds=["noise", "noise", "ar1"], allow_list=False, scale=False)),
             "backends": list(backends)}
 
@@ -116,8 +120,15 @@ def oracle_delay(case):
     viol, raw = [], {}
     ndisc = 0
     worst = 0.0
+    extra = {}
+    if case.get("band_u"):
+        # a band-restricted plan (keeps a strict subset of the bins): still "a plan" for this property
+        ff = np.asarray(gens.make_analyzer(data, fs, cfg).plan()["f"])
+        lo = float(ff[int(case["band_u"][0] * (len(ff) - 1) * 0.5)])
+        hi = float(ff[max(int(case["band_u"][1] * (len(ff) - 1)), int(case["band_u"][0] * (len(ff) - 1) * 0.5))])
+        extra = {"band": (lo, hi)}
     for be in case["backends"]:
-        res = gens.make_analyzer(data, fs, cfg, backend=be).compute()
+        res = gens.make_analyzer(data, fs, cfg, backend=be, **extra).compute()
         raw[be] = res
         for j in _pick(len(res.f)):
             L = int(res.L[j])
@@ -129,7 +140,7 @@ def oracle_delay(case):
             X, Y = ref["X"], ref["Y"]
             mx = float(np.mean(np.abs(X) ** 2))
             Sx = tol.seg_scale(x, D, L, w, cfg["order"])
-            bx = tol.budget2(L, om, Sx)
+            bx = tol.budget2(L, om, Sx, len(D))
             if not mx > 1e3 * bx:
                 continue
             B = float(np.sqrt(np.mean(np.abs(Y - np.exp(-1j * om * d) * X) ** 2) / mx))
@@ -153,6 +164,8 @@ def oracle_delay(case):
     labels = ["delay:%s,o=%d,%s,d=%d" % (",".join(case["backends"]), cfg["order"], cfg["scheduler"], d)]
     if ndisc >= 5:
         labels.append("delay:sign-discriminating")
+    if extra:
+        labels.append("delay:band-restricted")
     return Res(viol, ndisc >= 5, labels, {"worst_e_over_B": worst})
 
 
